@@ -30,6 +30,7 @@ type loopInfo struct {
 	ordinal int
 	blocks  map[*ssa.BasicBlock]bool
 	backs   []*ssa.BasicBlock // preds with back edge
+	headSt  *State            // state at the loop header (start of an arbitrary iteration)
 }
 
 // cfgInfo: back edges, loop headers, topological order ignoring back edges.
@@ -220,6 +221,7 @@ func (c *Ctx) execBody(fr *Frame, st0 *State, reach0 string) []retPoint {
 					c.assumeTyped(reach, v, phi.Type(), st, 2)
 				}
 				c.assumeInvariants(fr, li, st, reach)
+				li.headSt = st.clone()
 			}
 		}
 		out := c.execBlock(fr, b, st, reach, &rets)
@@ -313,6 +315,19 @@ func (c *Ctx) mergeStates(conds []string, sts []*State) *State {
 			break
 		}
 	}
+	{
+		var ns []string
+		same := true
+		for _, s := range sts {
+			ns = append(ns, s.trN)
+			if s.trN != ns[0] {
+				same = false
+			}
+		}
+		if !same {
+			n.trN = c.defineAlways("trn", "Int", iteChain(conds, ns))
+		}
+	}
 	var as, hs []string
 	sameA, sameH := true, true
 	for _, s := range sts {
@@ -374,7 +389,16 @@ func (c *Ctx) mergeVals(conds []string, vs []Val, t types.Type, name string) Val
 	for _, v := range vs {
 		ts = append(ts, c.term(v))
 	}
-	return Val{T: c.define(name, c.sorts.Of(t), iteChain(conds, ts)), Typ: t}
+	// merged values are named by constants (not macros): they may occur inside quantifier patterns, where
+	// the ite/and of a macro expansion is not allowed
+	srt := c.sorts.Of(t)
+	term := iteChain(conds, ts)
+	if c.specDepth == 0 && (srt == "Slice" || srt == "Int") && strings.Contains(term, "(ite ") {
+		n := c.havoc(name, srt)
+		c.lines = append(c.lines, fmt.Sprintf("(assert (= %s %s))", n, term))
+		return Val{T: n, Typ: t}
+	}
+	return Val{T: c.define(name, srt, term), Typ: t}
 }
 
 // term forces a Val into an SMT term (function values get a ref with fnid).
@@ -497,7 +521,14 @@ func (c *Ctx) typeFact(term string, t types.Type, st *State, depth int) string {
 			}
 		}
 		return f
-	case *types.Interface, *types.Map, *types.Chan, *types.Signature:
+	case *types.Interface:
+		f := fmt.Sprintf("(and (<= 0 %s) (< %s %s))", term, term, st.alloc)
+		// closed world: a non-nil value of a repository interface type holds one of its implementers
+		if c.w.isRepoInterface(t) && u.NumMethods() > 0 && c.specDepth == 0 {
+			f = and(f, fmt.Sprintf("(=> (not (= %s 0)) %s)", term, c.typeTest(term, t)))
+		}
+		return f
+	case *types.Map, *types.Chan, *types.Signature:
 		return fmt.Sprintf("(and (<= 0 %s) (< %s %s))", term, term, st.alloc)
 	case *types.Slice:
 		return fmt.Sprintf("(and (<= 0 (s_arr %s)) (< (s_arr %s) %s) (<= 0 (s_off %s)) (<= 0 (s_len %s)) (<= (s_len %s) (s_cap %s)) (<= (+ (s_off %s) (s_cap %s)) MAXLEN) (=> (= (s_arr %s) 0) (= (s_cap %s) 0)))",
